@@ -202,17 +202,29 @@ def _check_run(rep, fn, run):
     if q in ('transformation.orthogonalize_left',
              'transformation.orthogonalize_right') and \
             run.variant.get('inplace') == ('lit', True):
-        stores = [ef for ef in I.effects if ef.kind == 'list-write'
-                  and ef.where == q]
-        srcs = sorted({ef.construct for ef in stores})
-        if len(srcs) == 2:
-            rep.ok('A-inplace', q, 'in-place stores: ' + ' ; '.join(
-                s.split('=')[0].strip() for s in srcs))
-        else:
-            rep.violation('A-inplace', q, 'in-place stores: ' + ' ; '.join(
-                s.split('=')[0].strip() for s in srcs),
-                'expected stores to exactly the two adjacent cores, found %d'
-                % len(srcs))
+        # which positions of the ARGUMENT list hold another object after the
+        # call (decided on the abstract heap of a fresh run, however the
+        # stores are spelt: two subscript stores or one slice store)
+        from .. import interp as _interp
+        from .. import specs as _specs
+        I2 = _interp.Interp(run.I.prog, {
+            'split': dict(_specs.DEFAULT_SPLIT),
+            'summary': dict(_specs.DEFAULT_SUMMARY)})
+        a2 = _specs.build_args(run.variant, run.d)
+        before = list(a2['Y'].items)
+        I2.run_function(fn, a2)
+        after = a2['Y'].items
+        changed = None if after is None or len(after) != len(before) else \
+            [k for k in range(len(before)) if after[k] is not before[k]]
+        good = changed is not None and len(changed) == 2 and \
+            changed[1] == changed[0] + 1
+        rep.add('A-inplace', q, 'in-place: cores %s of the argument are '
+                'replaced (%s)' % (changed, run.tag()),
+                'ok' if good else ('unknown' if changed is None
+                                   else 'violation'),
+                '' if good else 'expected exactly two adjacent cores of the '
+                'argument to be replaced, found %s' % (changed,),
+                line=fn.node.lineno, file=fn.module.path)
     if q in ('transformation.orthogonalize_left',
              'transformation.orthogonalize_right') and \
             run.variant.get('inplace') != ('lit', True):
